@@ -2,6 +2,7 @@
 
 // verif:module staging/src/github.com/kubewharf/apiserver-runtime
 // verif:pkg pkg/registry
+// verif:zeroglobal k8s.io/apimachinery/pkg/api/equality.Semantic
 // verif:encode k8s.io/apimachinery/pkg/api/meta
 // verif:encode k8s.io/apimachinery/pkg/apis/meta/v1
 // verif:opt unwind=8 maxstrlen=2
